@@ -144,7 +144,11 @@ namespace bxdecay0 {
     double y            = aZ * we / pe;
     double gamma1       = std::sqrt(1. - aZ * aZ);
     gsl_sf_result res;
-    // int err = gsl_sf_lngamma_complex_e (gamma1, y, &res, &arg);
+    gsl_sf_result arg;
+    int err = gsl_sf_lngamma_complex_e(gamma1, y, &res, &arg);
+    if (err != GSL_SUCCESS) {
+      throw std::logic_error("bxdecay0::decay0_fermi_func_shape_only: GSL error at 'gsl_sf_lngamma_complex_e' invocation!");
+    }
     double lnr = res.val;
     // double lnr_err = res.err;
     // double zarg     = arg.val;
